@@ -273,6 +273,9 @@ fn run(args: &[String]) -> i32 {
     if harness_errors.is_empty() && total.evals < p.min_evals && total.viols.is_empty() && total.inconclusive.is_empty() {
         harness_errors.push(format!("observation floor not met: {} evaluations < {}", total.evals, p.min_evals));
     }
+    if harness_errors.is_empty() && total.samples.is_empty() && total.viols.is_empty() {
+        harness_errors.push("observation floor not met: the run recorded no sample case".to_string());
+    }
     if harness_errors.is_empty() && total.keys.len() < 2 && total.viols.is_empty() {
         harness_errors.push("observation floor not met: fewer than 2 distinct classes".to_string());
     }
